@@ -24,6 +24,7 @@ pub const CTX: u32 = 7;
 pub const MS_MUL: usize = 3;
 pub const MS_ADD: usize = 7;
 pub const MS_CTX: u32 = 9;
+pub const CTX2_ADD: u32 = 1000;
 
 #[derive(Clone, Copy, Debug, PartialEq, Eq, PartialOrd, Ord, Hash, Serialize, Deserialize)]
 pub enum Kind {
@@ -48,6 +49,11 @@ pub enum Kind {
     CharStream,
     CtxStr,
     MapSpanStr,
+    /// wrappers stacked on wrappers
+    CtxOfMapSpanStream,
+    MapSpanOfCtxSlice,
+    MapSpanOfCtxIo,
+    CtxOfMappedStream,
 }
 
 pub const U8_KINDS: &[Kind] = &[
@@ -66,27 +72,31 @@ pub const U8_KINDS: &[Kind] = &[
     Kind::MapSpanSlice,
     Kind::MapSpanStream,
     Kind::MapSpanIo,
+    Kind::CtxOfMapSpanStream,
+    Kind::MapSpanOfCtxSlice,
+    Kind::MapSpanOfCtxIo,
+    Kind::CtxOfMappedStream,
 ];
 pub const CHAR_KINDS: &[Kind] = &[Kind::Str, Kind::CharStream, Kind::CtxStr, Kind::MapSpanStr];
 /// Kinds exercised on the long (batch / buffer boundary) inputs.
-pub const LONG_KINDS: &[Kind] = &[Kind::Stream, Kind::StreamBoxed, Kind::StreamExact, Kind::Io, Kind::MappedStream, Kind::CtxStream, Kind::MapSpanIo, Kind::Bytes];
+pub const LONG_KINDS: &[Kind] = &[Kind::Stream, Kind::StreamBoxed, Kind::StreamExact, Kind::Io, Kind::MappedStream, Kind::CtxStream, Kind::MapSpanIo, Kind::Bytes, Kind::CtxOfMapSpanStream, Kind::MapSpanOfCtxIo];
 
 impl Kind {
     pub fn is_mapped(self) -> bool {
-        matches!(self, Kind::MappedSlice | Kind::MappedStream | Kind::IterInput)
+        matches!(self, Kind::MappedSlice | Kind::MappedStream | Kind::IterInput | Kind::CtxOfMappedStream)
     }
     pub fn uses_reader(self) -> bool {
-        matches!(self, Kind::Io | Kind::CtxIo | Kind::MapSpanIo)
+        matches!(self, Kind::Io | Kind::CtxIo | Kind::MapSpanIo | Kind::MapSpanOfCtxIo)
     }
     pub fn uses_iter(self) -> bool {
-        matches!(self, Kind::Stream | Kind::StreamBoxed | Kind::StreamExact | Kind::MappedStream | Kind::CtxStream | Kind::MapSpanStream | Kind::CharStream | Kind::IterInput)
+        matches!(self, Kind::Stream | Kind::StreamBoxed | Kind::StreamExact | Kind::MappedStream | Kind::CtxStream | Kind::MapSpanStream | Kind::CharStream | Kind::IterInput | Kind::CtxOfMapSpanStream | Kind::CtxOfMappedStream)
     }
     /// SliceInput, BorrowInput, ExactSizeInput-with-index-rebasing, StrInput, StrInput with borrowed
     /// slices — must agree with the `caps!` table in build.rs
     pub fn caps(self) -> Need {
         let n = |slice, borrow, exact, strin, regex| Need { slice, borrow, exact, strin, regex };
         match self {
-            Kind::Slice | Kind::Array | Kind::CtxSlice | Kind::MapSpanSlice => n(true, true, true, true, true),
+            Kind::Slice | Kind::Array | Kind::CtxSlice | Kind::MapSpanSlice | Kind::MapSpanOfCtxSlice => n(true, true, true, true, true),
             Kind::CharSlice => n(true, true, true, false, false),
             Kind::Str | Kind::CtxStr | Kind::MapSpanStr => n(true, false, true, true, true),
             Kind::Bytes => n(true, false, true, true, false),
@@ -160,6 +170,8 @@ pub fn run_kind(g: &G, syms: &[u8], kind: Kind, mode: PMode, env: &Env, budget: 
     type SS = SimpleSpan<usize>;
     type CS = SimpleSpan<usize, u32>;
     let ms = |s: SS| -> CS { SimpleSpan { start: s.start * MS_MUL + MS_ADD, end: s.end * MS_MUL + MS_ADD, context: MS_CTX } };
+    // second layer: re-maps an already contextualised span
+    let ms2 = |s: CS| -> CS { SimpleSpan { start: s.start * MS_MUL + MS_ADD, end: s.end * MS_MUL + MS_ADD, context: s.context + CTX2_ADD } };
     let eoi: SS = (env.eoi.0..env.eoi.1).into();
 
     macro_rules! value {
@@ -264,6 +276,23 @@ pub fn run_kind(g: &G, syms: &[u8], kind: Kind, mode: PMode, env: &Env, budget: 
                 rlog = Some(log);
                 value!(chumsky::input::MappedSpan<CS, IoInput<SimReader>, _>, IoInput::new(rd).map_span(ms))
             }
+            Kind::CtxOfMapSpanStream => {
+                let (it, log) = SimIter::new(rc.clone(), env.hint);
+                ilog = Some(log);
+                value!(chumsky::input::WithContext<CS, chumsky::input::MappedSpan<CS, Stream<SimIter<u8>>, _>>, Stream::from_iter(it).map_span(ms).with_context::<CS>(CTX))
+            }
+            Kind::MapSpanOfCtxSlice => value!(chumsky::input::MappedSpan<CS, chumsky::input::WithContext<CS, &[u8]>, _>, (&toks[..]).with_context::<CS>(CTX).map_span(ms2)),
+            Kind::MapSpanOfCtxIo => {
+                let (rd, log) = mk_reader(&rc, env);
+                rlog = Some(log);
+                value!(chumsky::input::MappedSpan<CS, chumsky::input::WithContext<CS, IoInput<SimReader>>, _>, IoInput::new(rd).with_context::<CS>(CTX).map_span(ms2))
+            }
+            Kind::CtxOfMappedStream => {
+                let (it, log) = SimIter::new(Rc::new(pairs.clone()), env.hint);
+                ilog = Some(log);
+                let f = |ts: (u8, SS)| (ts.0, ts.1);
+                value!(chumsky::input::WithContext<CS, chumsky::input::MappedInput<u8, SS, Stream<SimIter<(u8, SS)>>, _>>, Stream::from_iter(it).map(eoi, f).with_context::<CS>(CTX))
+            }
             _ => unreachable!(),
         }
     } else {
@@ -329,6 +358,20 @@ pub fn rebase(ref_kind: Kind, kind: Kind, syms: &[u8], env: &Env) -> Box<dyn Fn(
         }
         Kind::CtxSlice | Kind::CtxStream | Kind::CtxIo => Box::new(|s| Sp(CTX, s.1, s.2)),
         Kind::MapSpanSlice | Kind::MapSpanStream | Kind::MapSpanIo => Box::new(|s| Sp(MS_CTX, s.1 * MS_MUL + MS_ADD, s.2 * MS_MUL + MS_ADD)),
+        // with_context over map_span: the outer context replaces the inner one, offsets stay mapped
+        Kind::CtxOfMapSpanStream => Box::new(|s| Sp(CTX, s.1 * MS_MUL + MS_ADD, s.2 * MS_MUL + MS_ADD)),
+        // map_span over with_context: the function sees the contextualised span
+        Kind::MapSpanOfCtxSlice | Kind::MapSpanOfCtxIo => Box::new(|s| Sp(CTX + CTX2_ADD, s.1 * MS_MUL + MS_ADD, s.2 * MS_MUL + MS_ADD)),
+        Kind::CtxOfMappedStream => {
+            let m = env.mspans.clone();
+            Box::new(move |s: Sp| {
+                if s.1 < s.2 && s.2 <= m.len() {
+                    Sp(CTX, m[s.1].0, m[s.2 - 1].1)
+                } else {
+                    Sp::MASKED
+                }
+            })
+        }
         Kind::MappedSlice | Kind::MappedStream | Kind::IterInput => {
             let m = env.mspans.clone();
             Box::new(move |s: Sp| {
@@ -844,7 +887,10 @@ impl SrcSim {
                         return digest;
                     }
                     if kind.is_mapped() {
-                        mapped_obs.push((kind, run.outcome.clone(), env.clone()));
+                        // (the context a wrapper adds on top is removed for the comparison among mapped kinds)
+                        let mut o = run.outcome.clone();
+                        o.map_spans(&|s: Sp| if s == Sp::MASKED { s } else { Sp(0, s.1, s.2) });
+                        mapped_obs.push((kind, o, env.clone()));
                     }
                     acc.sample("samples", idx, 6, || {
                         json!({
